@@ -39,7 +39,11 @@ out += ["", f"{c} of {n} seeded changes are caught by the quick tier.", "",
         "Round 2 also led to new generators in the owning checks: level-0 grid (C05-4), collections of FITS images against the",
         "unfiltered pipeline (C07-4), poles anywhere inside an edge pixel probed 16384x deeper than the image scale (C07-5),",
         "whole-tile holes over a re-tiled directory, tiles holding only +-inf, a tiling nested inside another one's write (C08-4..6),",
-        "histories of pyramids in one process (C13-5), transient faults (C18-4..6), deep look-ups to level 26 (C12).", ""]
+        "histories of pyramids in one process (C13-5), transient faults (C18-4..6), deep look-ups to level 26 (C12), requests",
+        "larger than a tile and of odd shapes (C11-5), several image objects handled one after another and 1-6 flips per object",
+        "(C16-4, C16-6), `FitsTiler(add_place_for_toast=False)` and a transient read error on the reused index (C17-7, C17-8),",
+        "depth-4 walks in the quick tier of C03 (C03-7), an entirely undefined quartet under a left-over parent (C02-3, which the",
+        "quick tier had caught at one seed in three).", ""]
 p = os.path.join(HERE, "DESIGN.md")
 s = open(p).read()
 i = s.index("## 7. Which checks catch which seeded changes")
